@@ -32,6 +32,26 @@ def main():
                 continue
             seen.add(key)
             claims.append(c)
+    if not a.only:
+        # claims made by the real analysis while the repository's own tests run (recorded by harness/testrec.py)
+        from ..testrec import add_test_edges
+        with scratch() as d0:
+            _, other = add_test_edges(rep, a.tier, d0, units=False, fwd=False, purity=False, claims=True)
+        n_t = 0
+        for o in other:
+            if o.get("kind") == "claims":
+                for c in o["claims"]:
+                    raw += 1
+                    key = json.dumps([c["kind"], c["e"], c["env"], c["base"], c["haslo"], c["lo"], c["hashi"], c["hi"], c.get("preds")],
+                                     sort_keys=True)
+                    if key in seen:
+                        continue
+                    seen.add(key)
+                    c["prog"] = "repo:" + o.get("file", "")
+                    c["src"] = "repo-test"
+                    claims.append(c)
+                    n_t += 1
+        rep.add_cov(claims_from_repo_tests=n_t)
     gen, gen_errs = rangeclaims.gen_claims(eff_seed(), 1500 if quick else 20000)
     for c in gen:
         c["prog"] = "generated"
